@@ -109,6 +109,32 @@ func (b *builder) lookupFun(qual string) *lisp.LVal {
 	return v
 }
 
+// goFun builds function values with the exported Go constructors, the way an
+// embedder registers host functions: odd but legal results and formals.
+func (b *builder) goFun(sel int64) *lisp.LVal {
+	switch sel {
+	case 100: // returns a Go nil *LVal
+		return lisp.FunInPackage("user", "c03-nil", lisp.Formals(lisp.VarArgSymbol, "xs"), func(*lisp.LEnv, *lisp.LVal) *lisp.LVal { return nil })
+	case 101: // returns an error value
+		return lisp.FunInPackage("user", "c03-err", lisp.Formals(lisp.VarArgSymbol, "xs"), func(env *lisp.LEnv, _ *lisp.LVal) *lisp.LVal { return env.Errorf("host error") })
+	case 102: // returns its argument list itself
+		return lisp.FunInPackage("user", "c03-args", lisp.Formals(lisp.VarArgSymbol, "xs"), func(_ *lisp.LEnv, args *lisp.LVal) *lisp.LVal { return args })
+	case 103: // package-less function (lisp.Fun leaves Package empty)
+		return lisp.Fun("c03-nopkg", lisp.Formals("x"), func(_ *lisp.LEnv, args *lisp.LVal) *lisp.LVal { return args.Cells[0] })
+	case 104: // host macro returning its first argument unevaluated
+		return lisp.MacroInPackage("user", "c03-gomac", lisp.Formals("x"), func(_ *lisp.LEnv, args *lisp.LVal) *lisp.LVal { return args.Cells[0] })
+	case 105: // host special operator
+		return lisp.SpecialOpInPackage("user", "c03-goop", lisp.Formals(lisp.VarArgSymbol, "xs"), func(_ *lisp.LEnv, args *lisp.LVal) *lisp.LVal { return lisp.Int(len(args.Cells)) })
+	case 106: // empty formals built from Nil
+		return lisp.FunInPackage("user", "c03-nilformals", lisp.Nil(), func(*lisp.LEnv, *lisp.LVal) *lisp.LVal { return lisp.Int(1) })
+	case 107: // comparison returning a non-boolean
+		return lisp.FunInPackage("user", "c03-cmp", lisp.Formals("a", "b"), func(*lisp.LEnv, *lisp.LVal) *lisp.LVal { return lisp.String("yes") })
+	}
+	return lisp.FunInPackage("user", "c03-id", lisp.Formals("x"), func(_ *lisp.LEnv, args *lisp.LVal) *lisp.LVal { return args.Cells[0] })
+}
+
+const numGoFun = 8
+
 func (b *builder) native(sel int64, p uint64) interface{} {
 	switch sel {
 	case 0:
@@ -383,6 +409,9 @@ func (b *builder) build0(d VD) *lisp.LVal {
 			}
 			return lisp.Nil()
 		}
+		if d.I >= 100 {
+			return b.goFun(d.I)
+		}
 		i := int(d.I)
 		if i < 1 || i > len(funSnippets) {
 			i = 1
@@ -516,6 +545,9 @@ func genFun(t *rapid.T) VD {
 	if rapid.IntRange(0, 2).Draw(t, "fk") == 0 && len(callables) > 0 {
 		c := callables[rapid.IntRange(0, len(callables)-1).Draw(t, "fn")]
 		return VD{K: "fun", I: 0, S: []byte(c.Pkg + ":" + c.Name)}
+	}
+	if rapid.IntRange(0, 3).Draw(t, "gofun") == 0 {
+		return VD{K: "fun", I: 100 + int64(rapid.IntRange(0, numGoFun-1).Draw(t, "gf"))}
 	}
 	return VD{K: "fun", I: int64(rapid.IntRange(1, len(funSnippets)).Draw(t, "fs"))}
 }
